@@ -105,13 +105,19 @@ func switchToParentThread(L *LState, nargs int, haserror bool, kill bool) {
 func callGFunction(L *LState, tailcall bool) bool {
 	frame := L.currentFrame
 	gfnret := frame.Fn.GFunction(L)
-	if tailcall {
-		L.currentFrame = L.RemoveCallerFrame()
-	}
-
 	if gfnret < 0 {
+		if tailcall {
+			// a yield in tail position keeps the caller's frame: the values passed to the next
+			// resume become the results of this call and the RETURN that follows OP_TAILCALL
+			// hands them on
+			frame.ReturnBase = frame.Base
+			frame.NRet = MultRet
+		}
 		switchToParentThread(L, L.GetTop(), false, false)
 		return true
+	}
+	if tailcall {
+		L.currentFrame = L.RemoveCallerFrame()
 	}
 
 	wantret := frame.NRet
